@@ -52,7 +52,24 @@ pub fn timestamp_text() -> BoxedStrategy<String> {
 }
 
 fn digest_map() -> BoxedStrategy<Value> {
-    proptest::collection::btree_map("[a-z0-9]{1,6}", "[0-9a-f]{0,12}", 0..3).prop_map(|m| json!(m)).boxed()
+    // one set in six also carries, for one of its names, a sibling that differs in letter case only, is a prefix of
+    // it, or carries a trailing space - with another value
+    (proptest::collection::btree_map("[a-z0-9]{1,6}", "[0-9a-f]{0,12}", 0..3), prop_oneof![5 => Just(None), 1 => (any::<u8>(), 0u8..4).prop_map(Some)])
+        .prop_map(|(mut m, sibling)| {
+            if let (Some((sel, how)), false) = (sibling, m.is_empty()) {
+                let names: Vec<String> = m.keys().cloned().collect();
+                let k = names[sel as usize % names.len()].clone();
+                let nk = match how {
+                    0 => k.to_uppercase(),
+                    1 => format!("{}{}", k[..1].to_uppercase(), &k[1..]),
+                    2 => format!("{}1", k),
+                    _ => format!("{} ", k),
+                };
+                m.entry(nk).or_insert_with(|| "00ff".to_string());
+            }
+            json!(m)
+        })
+        .boxed()
 }
 
 fn material() -> BoxedStrategy<Value> {
